@@ -167,7 +167,11 @@ type guardResult struct {
 }
 
 // runGuard computes the unprotected sites reachable from entries.
-func runGuard(p *Program, entries []*ssa.Function) *guardResult {
+func runGuard(p *Program, entries []*ssa.Function, exclude ...*ssa.Function) *guardResult {
+	excl := map[*ssa.Function]bool{}
+	for _, f := range exclude {
+		excl[f] = true
+	}
 	cg := p.CallGraph()
 	helpers := panicHelpers(p)
 	barrierCache := map[*ssa.Function][]*ssa.Defer{}
@@ -191,6 +195,9 @@ func runGuard(p *Program, entries []*ssa.Function) *guardResult {
 		return false
 	}
 	stop := func(e *callgraph.Edge) bool {
+		if excl[e.Callee.Func] {
+			return true
+		}
 		if e.Site == nil {
 			return false
 		}
@@ -201,7 +208,7 @@ func runGuard(p *Program, entries []*ssa.Function) *guardResult {
 	}
 	res := &guardResult{}
 	res.Unprot = reachable(cg, entries, stop)
-	all := reachable(cg, entries, nil)
+	all := reachable(cg, entries, func(e *callgraph.Edge) bool { return excl[e.Callee.Func] })
 	res.AllReach = len(all)
 	res.All = all
 	var fns []*ssa.Function
